@@ -11,6 +11,7 @@ import (
 	"sync"
 	"sync/atomic"
 	"time"
+	"unicode/utf8"
 
 	"github.com/fullstorydev/grpchan"
 	"google.golang.org/grpc"
@@ -386,6 +387,9 @@ func (st *tunnelServerStream) setHeader(md metadata.MD, send bool) error {
 		return errors.New("already sent headers")
 	}
 	if md != nil {
+		if err := validateMetadata(md); err != nil {
+			return err
+		}
 		st.headers = metadata.Join(st.headers, md)
 	}
 	if send {
@@ -417,6 +421,24 @@ func fromProto(md *tunnelpb.Metadata) metadata.MD {
 	return vals
 }
 
+// validateMetadata returns an error if the given metadata cannot be sent over
+// a tunnel: the tunnel protocol represents keys and values as strings, which
+// must be valid UTF-8 to be encodable. A frame that cannot be encoded would
+// otherwise fail the whole tunnel, not just the RPC it belongs to.
+func validateMetadata(md metadata.MD) error {
+	for k, vals := range md {
+		if !utf8.ValidString(k) {
+			return status.Errorf(codes.Internal, "metadata key %q is not valid UTF-8 and cannot be sent over a tunnel", k)
+		}
+		for _, v := range vals {
+			if !utf8.ValidString(v) {
+				return status.Errorf(codes.Internal, "metadata value for key %q is not valid UTF-8 and cannot be sent over a tunnel", k)
+			}
+		}
+	}
+	return nil
+}
+
 func toProto(md metadata.MD) *tunnelpb.Metadata {
 	vals := map[string]*tunnelpb.Metadata_Values{}
 	for k, v := range md {
@@ -435,6 +457,9 @@ func (st *tunnelServerStream) setTrailer(md metadata.MD) error {
 
 	if st.closed {
 		return errors.New("already finished")
+	}
+	if err := validateMetadata(md); err != nil {
+		return err
 	}
 	st.trailers = metadata.Join(st.trailers, md)
 	return nil
@@ -632,6 +657,12 @@ func (st *tunnelServerStream) finishStream(err error) {
 	}
 
 	stat, _ := status.FromError(err)
+	if !utf8.ValidString(stat.Message()) {
+		// status message is also a string in the tunnel protocol
+		statProto := stat.Proto()
+		statProto.Message = strings.ToValidUTF8(statProto.Message, "\uFFFD")
+		stat = status.FromProto(statProto)
+	}
 
 	headers := st.headers
 	sendHeaders := !st.sentHeaders
